@@ -1,51 +1,8 @@
-(* PipeInv3.v -- the source's side: what is committed is a prefix of what the camera delivered, frame identities,
-   the loop-exit cause; the monitor reader; the devices as the HAL sees them. *)
+(* PipeInv3.v -- preservation of invariant group 3 (the source side: committed is a prefix of delivered; exit causes). *)
 From Coq Require Import List Bool Arith NArith Lia.
 From RecordUpdate Require Import RecordSet.
-From Pipe Require Import PipeModel PipeFacts PipeTac PipeInv1 PipeInv2.
+From Pipe Require Import PipeModel PipeFacts PipeTac PipeInvDefs.
 Import ListNotations RecordSetNotations.
-
-Definition src_has_cam (p : spc) : bool :=
-  match p with SLoop | SWMap | SMapped | SGot _ | SFailStop | SWind1 | SWind2 => true | _ => false end.
-Definition sink_has_sto (p : kpc) : bool :=
-  match p with
-  | KTest | KMainMapping | KMainMapped _ | KMainAppended _ _ | KMainAgain
-  | KFlushMapping | KFlushMapped _ | KFlushAppended _ | KFlushAgain | KStop => true
-  | _ => false
-  end.
-Definition in_flush_stop (c : cstop) : bool :=
-  match c with CFlush0 | CFlush | CFlushMapping | CFlushMapped _ | CStopped => true | _ => false end.
-
-Definition start_accepted (c : cstart) : bool :=
-  match c with TAccepted | TRegEnter | TRegMapped | TRegDone | TSinkUp | TFiltUp | TCamStarted => true | _ => false end.
-
-Record Inv3 (s : stream) : Prop := {
-  l_next : cam_next s = N.of_nat (length (delivered s));
-  l_deliv : forall n f, nth_error (delivered s) n = Some f ->
-            f_id f = N.of_nat n /\ f_hw f = N.of_nat n /\ f_tag f = cam_tag s;
-  l_iframe : src_on s = true -> iframe s = N.of_nat (length (delivered s));
-  l_commit : skipn (base s) (log s) = firstn (ncommitted s) (delivered s);
-  l_count : src_on s = true -> dropped s = false -> length (delivered s) = ncommitted s + gotbit (s_pc s);
-  l_got : forall f, s_pc s = SGot f -> exists d, delivered s = d ++ [f];
-  l_acc : acq_on s = true -> aborted s = false -> sto_failed s = false -> accepting s = true;
-  l_drop : src_on s = true -> dropped s = true -> accepting s = false \/ src_in_loop (s_pc s) = false;
-  l_dropc : src_on s = true -> dropped s = true -> aborted s = true \/ sto_failed s = true;
-  l_camd : c_start s = TCamStarted -> delivered s = [];
-  l_srcon : src_on s = true -> acq_on s = true /\ c_start s <> TCamStarted /\ start_sto_up (c_start s) = false /\
-                               (c_start s = TFiltUp -> False) /\ (c_start s = TSinkUp -> False);
-  l_alive : src_in_loop (s_pc s) = true -> src_on s = true /\ cam_st s = HRunning /\ maxn s = goal s;
-  l_goal : src_on s = true -> (iframe s <= goal s)%N;
-  l_exit : src_on s = true -> left_loop (s_pc s) = true -> aborted s = false -> sto_failed s = false -> cam_failed s = false ->
-           (goal s <= iframe s)%N;
-  l_sstop : src_on s = true -> src_stopping s = true -> aborted s = true \/ sto_failed s = true;
-  l_win : src_on s = true -> abort_win s = true -> aborted s = true;
-  l_leave : match s_pc s with SFailStop | SLeave => true | _ => false end = true -> cam_failed s = true;
-  l_acqon : start_accepted (c_start s) = true -> acq_on s = true;
-  l_noab : (start_accepted (c_start s) || match c_start s with TStoStarted => true | _ => false end) = true -> aborted s = false;
-  l_lt : match s_pc s with SWMap | SMapped => true | _ => false end = true -> (iframe s < goal s)%N;
-  l_le : ncommitted s <= length (delivered s);
-  l_srcoff : src_on s = true -> s_pc s <> SOff
-}.
 
 Lemma inv3_init : Inv3 init_stream.
 Proof.
@@ -73,41 +30,41 @@ Proof.
            | |- forall n f, nth_error (_ ++ [_]) n = Some f -> _ =>
                let n0 := fresh "n" in let f1 := fresh "f" in let Hn := fresh "Hn" in
                intros n0 f1 Hn; apply nth_error_snoc in Hn; destruct Hn as [[? Hn]|[? ?]];
-               [ apply l_deliv0; exact Hn
-               | subst; cbn; destruct l_alive0 as (Hs & _); rewrite (l_iframe0 Hs); repeat split; reflexivity ]
+               [ apply l_deliv; exact Hn
+               | subst; cbn; destruct l_alive as (Hs & _); rewrite (l_iframe Hs); repeat split; reflexivity ]
            end.
   all: try match goal with
-           | |- skipn _ _ = firstn _ (_ ++ [_]) => rewrite firstn_app_le by exact l_le0; exact l_commit0
+           | |- skipn _ _ = firstn _ (_ ++ [_]) => rewrite firstn_app_le by exact l_le; exact l_commit
            end.
   all: try match goal with
            | |- forall f, SGot _ = SGot f -> exists d, _ =>
                let f1 := fresh "f" in let Hf := fresh "Hf" in intros f1 Hf; inversion Hf; subst; eexists; reflexivity
            end.
-  all: try (intros; specialize (l_lt0 eq_refl); lia).
+  all: try (intros; specialize (l_lt eq_refl); lia).
   (* Commit *)
   all: try match goal with
            | |- skipn _ (_ ++ [?f]) = firstn _ _ =>
-               destruct l_alive0 as (Hs & _); destruct (l_got0 f eq_refl) as [d Hd];
-               apply (commit_prefix _ _ d f); [lia | exact l_commit0 | exact Hd |];
-               destruct dropped; [destruct (l_drop0 Hs eq_refl); discriminate | apply (l_count0 Hs eq_refl)]
+               destruct l_alive as (Hs & _); destruct (l_got f eq_refl) as [d Hd];
+               apply (commit_prefix _ _ d f); [lia | exact l_commit | exact Hd |];
+               destruct dropped; [destruct (l_drop Hs eq_refl); discriminate | apply (l_count Hs eq_refl)]
            end.
   all: try match goal with
            | |- length (_ ++ [_]) - _ <= length _ =>
-               destruct l_alive0 as (Hs & _); rewrite app_length; cbn [length];
-               destruct dropped; [destruct (l_drop0 Hs eq_refl); discriminate | rewrite (l_count0 Hs eq_refl); lia]
+               destruct l_alive as (Hs & _); rewrite app_length; cbn [length];
+               destruct dropped; [destruct (l_drop Hs eq_refl); discriminate | rewrite (l_count Hs eq_refl); lia]
            end.
   all: try match goal with
            | |- _ = true -> true = true -> ?a = true \/ ?b = true =>
-               let Hs := fresh "Hs" in intros Hs _; destruct (l_srcon0 Hs) as [Ha _];
-               destruct a, b; auto; exfalso; specialize (l_acc0 Ha eq_refl eq_refl); discriminate l_acc0
+               let Hs := fresh "Hs" in intros Hs _; destruct (l_srcon Hs) as [Ha _];
+               destruct a, b; auto; exfalso; specialize (l_acc Ha eq_refl eq_refl); discriminate l_acc
            end.
   all: try match goal with
            | H : _ || _ || (_ <=? _)%N = true |- _ = true -> true = true -> _ =>
                let Hs := fresh "Hs" in intros Hs _ ? ? ?;
                apply orb_true_iff in H; destruct H as [H|H];
                [ apply orb_true_iff in H; destruct H as [H|H];
-                 [ destruct (l_sstop0 Hs H); congruence | specialize (l_win0 Hs H); congruence ]
-               | apply N.leb_le in H; destruct l_alive0 as (_ & _ & Hg); rewrite <- Hg; exact H ]
+                 [ destruct (l_sstop Hs H); congruence | specialize (l_win Hs H); congruence ]
+               | apply N.leb_le in H; destruct l_alive as (_ & _ & Hg); rewrite <- Hg; exact H ]
            end.
   all: try (intros _ _; right; auto; match goal with J : true = true -> _ |- _ => apply J; reflexivity end).
 Qed.
